@@ -55,6 +55,18 @@ func NewNaluArray(complete bool, naluType NaluType, nalus [][]byte) NaluArray {
 	return na
 }
 
+// copyNalus returns a deep copy of a list of NAL units (nil for nil).
+func copyNalus(nalus [][]byte) [][]byte {
+	if nalus == nil {
+		return nil
+	}
+	out := make([][]byte, len(nalus))
+	for i, nalu := range nalus {
+		out[i] = append([]byte{}, nalu...)
+	}
+	return out
+}
+
 // NaluType - return NaluType for NaluArray
 func (n *NaluArray) NaluType() NaluType {
 	return NaluType(n.completeAndType & 0x3f)
@@ -77,9 +89,10 @@ func CreateHEVCDecConfRec(vpsNalus, spsNalus, ppsNalus [][]byte,
 	}
 	var naluArrays []NaluArray
 	if includePS {
-		naluArrays = append(naluArrays, NewNaluArray(vpsComplete, NALU_VPS, vpsNalus))
-		naluArrays = append(naluArrays, NewNaluArray(spsComplete, NALU_SPS, spsNalus))
-		naluArrays = append(naluArrays, NewNaluArray(ppsComplete, NALU_PPS, ppsNalus))
+		// the record gets its own copies: the caller may re-use the buffers the NAL units were read into
+		naluArrays = append(naluArrays, NewNaluArray(vpsComplete, NALU_VPS, copyNalus(vpsNalus)))
+		naluArrays = append(naluArrays, NewNaluArray(spsComplete, NALU_SPS, copyNalus(spsNalus)))
+		naluArrays = append(naluArrays, NewNaluArray(ppsComplete, NALU_PPS, copyNalus(ppsNalus)))
 	}
 	ptf := sps.ProfileTierLevel
 	return DecConfRec{
